@@ -18,18 +18,40 @@ FMT_OPT = {'OO|OO': 2, 'OO': 0, 'O|O': 1, '|OO': 2}
 
 
 def c_signature(u, fn):
-    """(keyword names, number of optional) from kwlist + format string."""
+    """(keyword names, number of optional, format) from kwlist + format string
+    of the function's PyArg_ParseTupleAndKeywords call - its own, or the one in
+    a static helper it delegates the parsing to (the format may then be an
+    argument of that helper)."""
+    def local(f, bind=None):
+        g = ccfg(f)
+        kw = [n.e.a[2] for n in g.nodes if n.e is not None and n.e.k == 'decl'
+              and n.e.a[0] == 'kwlist']
+        pa = [c for n in g.nodes for c in node_calls(n, 'PyArg_ParseTupleAndKeywords')]
+        if not kw or not pa:
+            return None
+        names = [x.a[0] for x in kw[0].a[0] if x is not None and x.k == 'str']
+        fa = pa[0].a[1][2]
+        if fa is not None and fa.k == 'var' and bind and fa.a[0] in bind:
+            fa = bind[fa.a[0]]
+        if fa is None or fa.k != 'str':
+            return None
+        fmt = fa.a[0].strip('"').split(':')[0]
+        nopt = len(fmt.split('|')[1]) if '|' in fmt else 0
+        return names, nopt, fmt
     f = u.func(fn)
-    g = ccfg(f)
-    kw = [n.e.a[2] for n in g.nodes if n.e is not None and n.e.k == 'decl'
-          and n.e.a[0] == 'kwlist']
-    pa = [c for n in g.nodes for c in node_calls(n, 'PyArg_ParseTupleAndKeywords')]
-    if not kw or not pa:
-        return None
-    names = [x.a[0] for x in kw[0].a[0] if x is not None and x.k == 'str']
-    fmt = pa[0].a[1][2].a[0].split(':')[0]
-    nopt = len(fmt.split('|')[1]) if '|' in fmt else 0
-    return names, nopt, fmt
+    got = local(f)
+    if got is not None:
+        return got
+    for n in ccfg(f).nodes:
+        for c in node_calls(n):
+            h = u.funcs.get(c.a[0]) if isinstance(c.a[0], str) else None
+            if h is None:
+                continue
+            bind = {p: a for (p, _t), a in zip(h.params, c.a[1])}
+            got = local(h, bind)
+            if got is not None:
+                return got
+    return None
 
 
 def py_signature(func):
